@@ -3,17 +3,22 @@
    sem_post / process end) or one marker of the driver (entering / leaving the protected section).
 
    MFrontLock::MFrontLock   : sem_open("/mfront-<euid>", O_CREAT, 0600, 1)   -> Open
-   MFrontLock::lock         : sem_wait (blocks while the value is 0)          -> Wait   (its return)
-   MFrontLock::unlock       : sem_post                                        -> Post
-   MFrontLock::~MFrontLock  : what the static destructor does at process exit -> ExitPost (it posts) or
-                              ExitQuiet (it leaves the value alone: sem_close, nothing, _exit, kill -9)
+   MFrontLock::lock         : sem_wait (blocks while the value is 0)          -> Wait   (its return; locked := true)
+   MFrontLock::unlock       : sem_post                                        -> Post   (locked := false)
+   process end through exit(): static destructors run, hence ~MFrontLock     -> Exit p posted
+                              (posted = the destructor issued a sem_post; which value of [posted] is possible at a
+                               control point is what distinguishes the three kinds of code, see [dtor_posts])
+   process end with no user code run (_exit, SIGKILL)                         -> Kill p
    The semaphore is persistent: nobody ever unlinks it, its value survives the processes. *)
 From Coq Require Import List Arith Bool.
 From C46 Require Import C46Spec.
 Import ListNotations.
 
-(* what the code under test does in the static destructor of the lock object *)
-Inductive dtor_kind := DtorPosts | DtorQuiet.
+(* what the code under test does in the static destructor of the lock object:
+   DtorPosts   : always sem_post                      (pinned tree, defect F13)
+   DtorQuiet   : never sem_post, only sem_close       (commit b861cfc5d)
+   DtorRelease : sem_post iff the lock is still held  (commit 5298e03a9: `if (this->locked) this->unlock();`) *)
+Inductive dtor_kind := DtorPosts | DtorQuiet | DtorRelease.
 
 Inductive event :=
 | Spawn                 (* a new process appears; its identifier is the number of processes so far *)
@@ -22,12 +27,13 @@ Inductive event :=
 | Enter (p : nat)
 | Leave (p : nat)
 | Post (p : nat)
-| ExitPost (p : nat)    (* process ends through exit(): the static destructor posts *)
-| ExitQuiet (p : nat).  (* process ends without changing the value, at any point *)
+| Exit (p : nat) (posted : bool)  (* process ends through exit() at any control point *)
+| Kill (p : nat).                 (* process ends at any control point without running any of its code *)
 
-Record state := mk { sem : option nat; procs : list pc }.
+(* lost = number of permits destroyed with a process killed while holding *)
+Record state := mk { sem : option nat; procs : list pc; lost : nat }.
 
-Definition init : state := mk None [].
+Definition init : state := mk None [] 0.
 
 Fixpoint set_pc (l : list pc) (p : nat) (c : pc) : list pc :=
   match l, p with
@@ -37,32 +43,43 @@ Fixpoint set_pc (l : list pc) (p : nat) (c : pc) : list pc :=
   end.
 
 Definition opened (c : pc) : bool := match c with Idle | Holding | InCS => true | _ => false end.
+Definition holding (c : pc) : bool := match c with Holding | InCS => true | _ => false end.
 Definition alive (c : pc) : bool := match c with Done => false | _ => true end.
+
+(* does the static destructor post when exit() is called at control point c?  (No lock object, no destructor.) *)
+Definition dtor_posts (k : dtor_kind) (c : pc) : bool :=
+  match k with
+  | DtorPosts => opened c
+  | DtorQuiet => false
+  | DtorRelease => holding c
+  end.
+
+Definition bump (o : option nat) : option nat := match o with Some v => Some (S v) | None => None end.
 
 (* the step relation *)
 Inductive step (k : dtor_kind) : state -> event -> state -> Prop :=
-| st_spawn : forall s, step k s Spawn (mk (sem s) (procs s ++ [NotOpen]))
+| st_spawn : forall s, step k s Spawn (mk (sem s) (procs s ++ [NotOpen]) (lost s))
 | st_open : forall s p,
     nth_error (procs s) p = Some NotOpen ->
-    step k s (Open p) (mk (Some (match sem s with None => 1 | Some v => v end)) (set_pc (procs s) p Idle))
+    step k s (Open p) (mk (Some (match sem s with None => 1 | Some v => v end)) (set_pc (procs s) p Idle) (lost s))
 | st_wait : forall s p v,
     nth_error (procs s) p = Some Idle -> sem s = Some (S v) ->
-    step k s (Wait p) (mk (Some v) (set_pc (procs s) p Holding))
+    step k s (Wait p) (mk (Some v) (set_pc (procs s) p Holding) (lost s))
 | st_enter : forall s p,
     nth_error (procs s) p = Some Holding ->
-    step k s (Enter p) (mk (sem s) (set_pc (procs s) p InCS))
+    step k s (Enter p) (mk (sem s) (set_pc (procs s) p InCS) (lost s))
 | st_leave : forall s p,
     nth_error (procs s) p = Some InCS ->
-    step k s (Leave p) (mk (sem s) (set_pc (procs s) p Holding))
+    step k s (Leave p) (mk (sem s) (set_pc (procs s) p Holding) (lost s))
 | st_post : forall s p v,
     nth_error (procs s) p = Some Holding -> sem s = Some v ->
-    step k s (Post p) (mk (Some (S v)) (set_pc (procs s) p Idle))
-| st_exit_post : forall s p c v,
-    k = DtorPosts -> nth_error (procs s) p = Some c -> opened c = true -> sem s = Some v ->
-    step k s (ExitPost p) (mk (Some (S v)) (set_pc (procs s) p Done))
-| st_exit_quiet : forall s p c,
+    step k s (Post p) (mk (Some (S v)) (set_pc (procs s) p Idle) (lost s))
+| st_exit : forall s p c b,
+    nth_error (procs s) p = Some c -> alive c = true -> b = dtor_posts k c ->
+    step k s (Exit p b) (mk (if b then bump (sem s) else sem s) (set_pc (procs s) p Done) (lost s))
+| st_kill : forall s p c,
     nth_error (procs s) p = Some c -> alive c = true ->
-    step k s (ExitQuiet p) (mk (sem s) (set_pc (procs s) p Done)).
+    step k s (Kill p) (mk (sem s) (set_pc (procs s) p Done) (hold c + lost s)).
 
 Inductive steps (k : dtor_kind) : state -> list event -> state -> Prop :=
 | steps_nil : forall s, steps k s [] s
@@ -82,33 +99,34 @@ Definition at_pc (s : state) (p : nat) (c : pc) : bool :=
 
 Definition step_fn (k : dtor_kind) (s : state) (e : event) : option state :=
   match e with
-  | Spawn => Some (mk (sem s) (procs s ++ [NotOpen]))
+  | Spawn => Some (mk (sem s) (procs s ++ [NotOpen]) (lost s))
   | Open p => if at_pc s p NotOpen
-              then Some (mk (Some (match sem s with None => 1 | Some v => v end)) (set_pc (procs s) p Idle))
+              then Some (mk (Some (match sem s with None => 1 | Some v => v end)) (set_pc (procs s) p Idle) (lost s))
               else None
   | Wait p => if at_pc s p Idle
               then match sem s with
-                   | Some (S v) => Some (mk (Some v) (set_pc (procs s) p Holding))
+                   | Some (S v) => Some (mk (Some v) (set_pc (procs s) p Holding) (lost s))
                    | _ => None
                    end
               else None
-  | Enter p => if at_pc s p Holding then Some (mk (sem s) (set_pc (procs s) p InCS)) else None
-  | Leave p => if at_pc s p InCS then Some (mk (sem s) (set_pc (procs s) p Holding)) else None
+  | Enter p => if at_pc s p Holding then Some (mk (sem s) (set_pc (procs s) p InCS) (lost s)) else None
+  | Leave p => if at_pc s p InCS then Some (mk (sem s) (set_pc (procs s) p Holding) (lost s)) else None
   | Post p => if at_pc s p Holding
               then match sem s with
-                   | Some v => Some (mk (Some (S v)) (set_pc (procs s) p Idle))
+                   | Some v => Some (mk (Some (S v)) (set_pc (procs s) p Idle) (lost s))
                    | None => None
                    end
               else None
-  | ExitPost p => match k, nth_error (procs s) p, sem s with
-                  | DtorPosts, Some c, Some v =>
-                      if opened c then Some (mk (Some (S v)) (set_pc (procs s) p Done)) else None
-                  | _, _, _ => None
-                  end
-  | ExitQuiet p => match nth_error (procs s) p with
-                   | Some c => if alive c then Some (mk (sem s) (set_pc (procs s) p Done)) else None
-                   | None => None
-                   end
+  | Exit p b => match nth_error (procs s) p with
+                | Some c => if alive c && Bool.eqb b (dtor_posts k c)
+                            then Some (mk (if b then bump (sem s) else sem s) (set_pc (procs s) p Done) (lost s))
+                            else None
+                | None => None
+                end
+  | Kill p => match nth_error (procs s) p with
+              | Some c => if alive c then Some (mk (sem s) (set_pc (procs s) p Done) (hold c + lost s)) else None
+              | None => None
+              end
   end.
 
 Fixpoint run (k : dtor_kind) (s : state) (tr : list event) : option state :=
@@ -124,11 +142,22 @@ Definition accepts (k : dtor_kind) (tr : list event) : bool :=
 Fixpoint nexitpost (tr : list event) : nat :=
   match tr with
   | [] => 0
-  | ExitPost _ :: r => S (nexitpost r)
+  | Exit _ true :: r => S (nexitpost r)
   | _ :: r => nexitpost r
   end.
 
+(* number of processes killed in a trace *)
+Fixpoint nkill (tr : list event) : nat :=
+  match tr with
+  | [] => 0
+  | Kill _ :: r => S (nkill r)
+  | _ :: r => nkill r
+  end.
+
 (* a complete, sequential run of process p that takes the lock once and exits normally on the pinned code *)
-Definition full_run (p : nat) : list event := [Spawn; Open p; Wait p; Enter p; Leave p; Post p; ExitPost p].
+Definition full_run (p : nat) : list event := [Spawn; Open p; Wait p; Enter p; Leave p; Post p; Exit p true].
 Fixpoint history (n first : nat) : list event :=
   match n with 0 => [] | S m => full_run first ++ history m (S first) end.
+
+(* one process calls exit() inside its protected section; b = what the destructor of the code under test does *)
+Definition exit_inside (b : bool) : list event := [Spawn; Open 0; Wait 0; Enter 0; Exit 0 b].
